@@ -1,1 +1,7 @@
 """witness classes of the known findings (predicates over the literal witness stored in a replay file)"""
+
+
+def regression_selector_default_quantitative(w):
+    """D6: RegressionSelector with its DEFAULT quantitative measure (distance_measure = 1 - r ranked in decreasing order, 0 treated as undefined).
+    Only witnesses that involve the quantitative features of a RegressionSelector with default measures belong to the finding."""
+    return isinstance(w, dict) and w.get('selector') == 'RegressionSelector' and w.get('default_measures') is True and w.get('dtype', 'float') == 'float'
